@@ -49,7 +49,7 @@ AST = RefOf("ast.AST")
 CALL = RefOf("ast.Call")
 field("func", Ref)
 field("args", TList(Ref))
-field("args", Ref, cls="ast.Lambda")            # Lambda.args is an ast.arguments object
+field("args", RefOf("ast.arguments"), cls="ast.Lambda")            # Lambda.args is an ast.arguments object
 field("args", TList(Ref), cls="ast.arguments")  # arguments.args is a list of ast.arg
 field("keywords", TList(Ref))
 field("arg", Str)
@@ -110,7 +110,8 @@ field("_class_vars", TList(RefOf(P + "cpp_representation.cpp_value")))
 field("_include_files", TList(Str))
 field("_link_libraries", TList(Str))
 field("_gc", RefOf(P + "generated_code.generated_code"))
-field("_arg_stack", Ref)
+ARGSTACK = external_class("func_adl.ast.call_stack.argument_stack")
+field("_arg_stack", RefOf(ARGSTACK))
 field("_prefix", Str)
 
 # ---------------------------------------------------------------- plug-in ast nodes
